@@ -5,6 +5,8 @@ from vf import Case
 ID = "C18"
 DRIVER = "drv_buffers"
 HARNESS = "h_buffers"
+QUICK_LEVEL = "thorough"      # the larger case set costs only seconds
+THOROUGH_SEEDS = 8
 RULE = ("explicit-state exploration over the abstract state (size, used, offset): for every reachable "
         "state of every size in scope, a shortest path to it followed by every operation with every operand "
         "length 0..size+1; every set-up argument combination on a small grid incl. null memory; seeded random "
